@@ -296,6 +296,9 @@ def gen_cases(rng, tier, component, wild_share=0.35):
 def nontrivial(case, impl_lines):
     """A case counts when the real writer put at least one DATA frame on the wire and had to wait for a window at least once."""
     data = any(" F=D:" in l or ",D:" in l for l in impl_lines)
+    if case.component == "s_srvord":
+        # T2 server component: no state dump; non-trivial = the real server wrote DATA and trailers
+        return data and any(":1:1:" in l.split(" WOK=")[0] and "H:" in l for l in impl_lines)
     waited = False
     for l in impl_lines:
         if " S=" in l:
